@@ -173,6 +173,174 @@ class RemoveUnused(Spec):
         return [C("no-direct-IR-mutation", st.fld("parent") == old.fld("parent"))]
 
 
+# ------------------------------------------------------------------ the effect queries (traits.py)
+TRAITS = "xdsl/traits.py"
+UNKNOWN_EFF = z3.Function("has_unknown_effects", I, Bo)  # get_effects(op) is None
+EFFSET = z3.Function("known_effect_set", I, z3.ArraySort(I, Bo))  # the effects of an op whose effects are known
+TR_UNKNOWN = z3.Function("effect_interface_reports_unknown", I, I, Bo)  # (trait, op): trait.get_effects(op) is None
+TR_SET = z3.Function("effect_interface_set", I, I, z3.ArraySort(I, Bo))
+MEMTR, NMEMTR = z3.Function("memory_effect_traits_of", I, z3.ArraySort(I, I)), z3.Function("n_memory_effect_traits_of", I, I)
+CB, CNB = z3.Function("blocks_of_region", I, z3.ArraySort(I, I)), z3.Function("n_blocks_of_region", I, I)
+CO, CNO = z3.Function("ops_of_block", I, z3.ArraySort(I, I)), z3.Function("n_ops_of_block", I, I)
+
+
+def _b_empty_set(ex, st, args, kw):
+    from pyvc.engine import Res
+
+    r = st.new_object("set")
+    st.dict_store(r, z3.K(I, z3.BoolVal(False)), z3.K(I, z3.IntVal(0)))
+    return [Res("val", VRef(r, "set", ("set", "ref")), st)]
+
+
+class GetEffects(Spec):
+    """
+    traits.get_effects(op): a SET is returned only if the op has at least one MemoryEffect interface and EVERY interface reports known effects, and then
+    the set contains the effects of every interface; otherwise None (= unknown, for safety).
+    """
+
+    prop, file, qualname = PROP, TRAITS, "get_effects"
+    modifies = ["dict#dom", "dict#val"]
+
+    def __init__(self):
+        from pyvc.engine import Res
+
+        def b_traits(ex, st, args, kw):
+            o = st.env["op"].z
+            return [Res("val", VSeq(MEMTR(o), NMEMTR(o), "ref", "MemoryEffect"), st)]
+
+        def b_it_effects(ex, st, args, kw):
+            it, o = st.env["it"].z, args[0].z
+            out = []
+            for unk, bs in ex.split(st, TR_UNKNOWN(it, o)):
+                if unk:
+                    out.append(Res("val", None, bs))
+                    continue
+                r = bs.new_object("effect_set")
+                bs.dict_store(r, TR_SET(it, o), z3.K(I, z3.IntVal(0)))
+                out.append(Res("val", VRef(r, "set", ("set", "ref")), bs))
+            return out
+
+        self.calls = {"set[EffectInstance]": Builtin(_b_empty_set, "an empty set"), "op.get_traits_of_type": Builtin(b_traits, "the op's MemoryEffect interfaces (uninterpreted sequence, the same at both call sites)"),
+                      "it.get_effects": Builtin(b_it_effects, "one interface's answer: None (unknown) or a set")}
+
+    def setup(self, st, inst):
+        o = st.declare_input("op", z3.Int("op"))
+        return {"op": VRef(o, "Operation"), "_o": o}
+
+    def pre(self, st, a):
+        return [A("objects", z3.And(a["_o"] != 0, NMEMTR(a["_o"]) >= 0))]
+
+    def inv(self, n, entry, st, a, lv):
+        o, k = a["_o"], lv["k"]
+        eff = lv["env"]["effects"].z
+        j, x = z3.Ints("ge!j ge!x")
+        return [A("interfaces-seen-so-far-report-known-effects-which-are-collected", forall([j], z3.Implies(z3.And(j >= 0, j < k), z3.And(
+            z3.Not(TR_UNKNOWN(MEMTR(o)[j], o)), forall([x], z3.Implies(TR_SET(MEMTR(o)[j], o)[x], st.dict_has(eff, x)))))))]
+
+    def post(self, old, st, a, res):
+        o = a["_o"]
+        j, x = z3.Ints("gp!j gp!x")
+        if res is None:
+            return [A("unknown-is-always-a-safe-answer", z3.BoolVal(True))]
+        return [C("a-set-is-returned-only-if-there-is-an-interface-and-every-interface-reports-known-effects",
+                  z3.And(NMEMTR(o) > 0, forall([j], z3.Implies(z3.And(j >= 0, j < NMEMTR(o)), z3.Not(TR_UNKNOWN(MEMTR(o)[j], o)))))),
+                C("the-set-contains-the-effects-of-every-interface",
+                  forall([j, x], z3.Implies(z3.And(j >= 0, j < NMEMTR(o), TR_SET(MEMTR(o)[j], o)[x]), st.dict_has(res.z, x))))]
+
+    def native_search(self, inst, seed):
+        r = N13.explore_recursive("quick", seed)
+        return r["failures"][0] if r["failures"] else None
+
+
+class RecursiveEffects(Spec):
+    """
+    RecursiveMemoryEffect.get_effects(op): a SET is returned only if EVERY op of every block of every region of `op` has known effects
+    (get_effects(child) is not None - and that is itself recursive for children carrying this trait), and the set contains all of them.
+    """
+
+    prop, file, qualname = PROP, TRAITS, "RecursiveMemoryEffect.get_effects"
+    modifies = ["dict#dom", "dict#val"]
+
+    def __init__(self):
+        from pyvc.engine import Res
+
+        def b_child(ex, st, args, kw):
+            c = args[0].z
+            ex.note_contract(self._callee)
+            out = []
+            for unk, bs in ex.split(st, UNKNOWN_EFF(c)):
+                if unk:
+                    out.append(Res("val", None, bs))
+                    continue
+                r = bs.new_object("child_effects")
+                bs.dict_store(r, EFFSET(c), z3.K(I, z3.IntVal(0)))
+                out.append(Res("val", VRef(r, "set", ("set", "ref")), bs))
+            return out
+
+        self._callee = GetEffects()
+        self.calls = {"set[EffectInstance]": Builtin(_b_empty_set, "an empty set"), "get_effects": Builtin(b_child, "contract of traits.get_effects (unit GetEffects): None (unknown) or the op's effect set")}
+
+    @property
+    def globals(self):
+        def ga(ex, st, base, attr):
+            if attr == "regions":
+                return VSeq(st.seq_arr("regions", base.z), st.seq_len("regions", base.z), "ref", "Region")
+            if attr == "blocks":
+                return VSeq(CB(base.z), CNB(base.z), "ref", "Block")
+            if attr == "ops":
+                return VSeq(CO(base.z), CNO(base.z), "ref", "Operation")
+            return None
+
+        return {"__getattr__": ga}
+
+    def setup(self, st, inst):
+        o = st.declare_input("op", z3.Int("op"))
+        return {"cls": VRef(z3.IntVal(1), "type"), "op": VRef(o, "Operation"), "_o": o}
+
+    def pre(self, st, a):
+        b = z3.Int("re!b")
+        return [A("objects-and-lengths", z3.And(a["_o"] != 0, st.seq_len("regions", a["_o"]) >= 0, forall([b], z3.And(CNB(b) >= 0, CNO(b) >= 0))))]
+
+    @staticmethod
+    def done(st, eff, child):
+        x = z3.Int("rd!x")
+        return z3.And(z3.Not(UNKNOWN_EFF(child)), forall([x], z3.Implies(EFFSET(child)[x], st.dict_has(eff, x))))
+
+    def inv(self, n, entry, st, a, lv):
+        o, k = a["_o"], lv["k"]
+        eff = lv["env"]["effects"].z
+        reg = lambda j: entry.seq_el("regions", o, j)
+        j, m, i = z3.Ints("ri!j ri!m ri!i")
+        regions_done = lambda upto: forall([j, m, i], z3.Implies(z3.And(j >= 0, j < upto, m >= 0, m < CNB(reg(j)), i >= 0, i < CNO(CB(reg(j))[m])),
+                                                                  self.done(st, eff, CO(CB(reg(j))[m])[i])))
+        same = A("regions-unchanged", z3.And(st.fld("regions#len") == entry.fld("regions#len"), st.arr2("regions#el") == entry.arr2("regions#el")))
+        if n == 0:
+            return [same, A("ops-of-processed-regions-are-known-and-collected", regions_done(k))]
+        k0 = lv["outer"][0]
+        r = reg(k0)
+        blocks_done = lambda upto: forall([m, i], z3.Implies(z3.And(m >= 0, m < upto, i >= 0, i < CNO(CB(r)[m])), self.done(st, eff, CO(CB(r)[m])[i])))
+        if n == 1:
+            return [same, A("ops-of-processed-regions-are-known-and-collected", regions_done(k0)), A("ops-of-processed-blocks-are-known-and-collected", blocks_done(k))]
+        k1 = lv["outer"][1]
+        b = CB(r)[k1]
+        return [same, A("ops-of-processed-regions-are-known-and-collected", regions_done(k0)), A("ops-of-processed-blocks-are-known-and-collected", blocks_done(k1)),
+                A("processed-ops-of-this-block-are-known-and-collected", forall([i], z3.Implies(z3.And(i >= 0, i < k), self.done(st, eff, CO(b)[i]))))]
+
+    def post(self, old, st, a, res):
+        o = a["_o"]
+        if res is None:
+            return [A("unknown-is-always-a-safe-answer", z3.BoolVal(True))]
+        j, m, i = z3.Ints("rp!j rp!m rp!i")
+        reg = lambda jj: old.seq_el("regions", o, jj)
+        return [C("a-set-is-returned-only-if-every-nested-op-has-known-effects-and-it-contains-all-of-them",
+                  forall([j, m, i], z3.Implies(z3.And(j >= 0, j < old.seq_len("regions", o), m >= 0, m < CNB(reg(j)), i >= 0, i < CNO(CB(reg(j))[m])),
+                                               self.done(st, res.z, CO(CB(reg(j))[m])[i]))))]
+
+    def native_search(self, inst, seed):
+        r = N13.explore_recursive("quick", seed)
+        return r["failures"][0] if r["failures"] else None
+
+
 # ------------------------------------------------------------------ LiveSet steps
 def live(st, ls, o):
     return st.dict_has(st.sel("_live_ops", ls), o)
@@ -382,7 +550,7 @@ class DeleteDead(Spec):
         return r["failures"][0] if r["failures"] else None
 
 
-NATIVE = [("dce-vs-liveness-oracle", N13.explore)]
+NATIVE = [("dce-vs-liveness-oracle", N13.explore), ("recursive-effects", N13.explore_recursive)]
 
 
 def _search(self, inst, seed):
@@ -409,12 +577,16 @@ def make_specs(tier):
     add(LiveSetSpec("set_live"), [{}])
     add(LiveSetSpec("propagate_op_liveness"), [{"regions": k} for k in range(0, 3)])
     add(DeleteDead(), [{}])
+    add(GetEffects(), [{}])
+    add(RecursiveEffects(), [{}])
     return specs
 
 
 ASSUMPTIONS = [
     "dialect trait declarations (IsTerminator, SymbolOpInterface, MemoryEffect traits) describe the operations' real behaviour",
-    "get_effects is bound as an opaque expression returning the op's effect set or None (its trait loop is covered by the bounded stand-in)",
+    "in result_only_effects, get_effects is bound as an opaque expression returning the op's effect set or None; traits.get_effects and "
+    "RecursiveMemoryEffect.get_effects are themselves under contract (a set only if every interface / every nested op reports known effects), with each "
+    "interface's own answer uninterpreted",
     "the nested generator `any(is_live(use.operation) for result in op.results for use in result.uses)` is abstracted by 'some user of a result is live'",
     "PatternRewriter.erase and propagate_region_liveness are trusted callee contracts here (C11 / bounded); LiveSet.delete_dead is under contract with trusted models "
     "of erase_block / erase_op / the listener and of its own recursive call; region_dce's fixpoint "
